@@ -141,7 +141,7 @@ def run(tier):
   ck = Check('C10', tier)
   ck.prove('props/C10.v', gen_targets=searchfam.GEN_TARGETS_ALL)
   rng = random.Random(ck.seed * 43 + 10)
-  n = 200 if tier == 'quick' else 3000
+  n = common.sz(tier, 200, 3000)
   jobs = []
   for i in range(n):
     case = search.gen_case(ck.seed * 100003 + 10 * 1009 + i, tier, max_geos=5)
